@@ -1,7 +1,7 @@
 """C01 -- A* returns the highest-scoring derivation; popped priorities never increase"""
 import numpy
 
-from depsim import refparser, session
+from depsim import gen, refparser, session
 from depsim.props.base import ParserSessionProp, FAMILIES_UNIFORM
 from depsim.runner import Violation, add_set, bump, digest
 
@@ -9,6 +9,7 @@ from depsim.runner import Violation, add_set, bump, digest
 class C01(ParserSessionProp):
     id = 'C01'
     scale_every = {'quick': 150, 'thorough': 80}
+    very_long_lengths = (255, 256, 257, 300, 300, 511, 640)      # the cubic Viterbi reference bounds what is affordable
     stress_every = {'quick': 400, 'thorough': 150}
     families = FAMILIES_UNIFORM
     max_len = 6
@@ -91,7 +92,7 @@ class C01(ParserSessionProp):
                 continue
             bump(stats, 'evaluations')
             cut = p['pops'] >= p['max_step']
-            key = digest((spec['world']['sentences'][sid]['tag']['hex'], spec['world']['sentences'][sid]['dep']['hex'],
+            key = digest((gen.arr_key(spec['world']['sentences'][sid]['tag']), gen.arr_key(spec['world']['sentences'][sid]['dep']),
                           spec['world']['grammar'].get('categories'), session.cfg_key(cfg), rec.contexts[pos]))
             if lb is not None and refparser.viterbi.last_alternatives >= 2:
                 add_set(stats, 'nontrivial', key)
